@@ -161,7 +161,8 @@ class Value:
             network_names = [n for n in NETWORK_DEFINITIONS if
                              NETWORK_DEFINITIONS[n]['currency_code'].upper() == cur_code.upper()]
             if network_names:
-                self.network = Network(network_names[0])
+                if self.network.name not in network_names:  # keep requested network if currency code matches
+                    self.network = Network(network_names[0])
                 self.currency = cur_code
             else:
                 # Try longest symbols first, otherwise 'da' (deca) is never found because it also starts with 'd' (deci)
@@ -171,7 +172,8 @@ class Value:
                         network_names = [n for n in NETWORK_DEFINITIONS if
                                          NETWORK_DEFINITIONS[n]['currency_code'].upper() == cur_code.upper()]
                         if network_names:
-                            self.network = Network(network_names[0])
+                            if self.network.name not in network_names:
+                                self.network = Network(network_names[0])
                             self.currency = cur_code
                         elif len(cur_code):
                             raise ValueError("Currency symbol not recognised")
